@@ -9,10 +9,7 @@ is compared with `ApiSpec.spec` (the contract on the abstract map):
   finding `C02_empty_key_counterexample`: it is accepted by the client and rejected by a strict server);
 * `flags`, when given, is `≥ 0`; an integer `delta` (incr/decr) or `delay` (flush_all) is `≥ 0`
   (the client renders them with `str()` unchecked; a strict server rejects a minus sign there);
-* the call is not `raw`, `version` or `quit`.  (`version`/`quit` are excluded only because `ApiSpec.spec`
-  returns the state `s` itself for them whereas the server model returns `AbsMap.settle s` — the same map
-  observationally, but not the same term when a delayed `flush_all` has become due.  They are covered by
-  separate theorems that state the exact resulting state.)
+* the call is not `raw` (an arbitrary command line is not part of the map contract).
 
 Nothing is required of `expire` (any integer is framed correctly; a non-integer is rejected by the
 client and by the contract alike) nor of the `cas` argument (`_check_cas` rejects on both sides).
@@ -40,8 +37,8 @@ def WF (cfg : Cfg) : Call → Prop
   | .arith _ k d _ => KeyOK cfg k ∧ NonNegArg d
   | .touch k _ _ => KeyOK cfg k
   | .flushAll d _ => NonNegArg d
-  | .version => False      -- see below
-  | .quit => False
+  | .version => True
+  | .quit => True
   | .raw _ _ => False
 
 /-- Is the socket open, with nothing unread, after call `c` returned `r` over a perfect connection?
